@@ -193,13 +193,15 @@ PROPS = {
         "level_note": "Trusted: os.path.exists/isabs/join as pure observations of a file system that does "
                       "not change during one call; mtime()/read()/cook() are external contracts of "
                       "cook_check. Package-relative ('pkg:path') specs and search paths are excluded by "
-                      "precondition. The @cache decorator of load (same args => same instance) is not "
-                      "yet under contract.",
+                      "precondition. The @cache decorator of load is under contract "
+                      "(same arguments => the instance created the first time, loaded once).",
         "units": [K("template.py::BaseTemplateFile.cook_check"), K("loader.py::TemplateLoader.load"),
+                  K("loader.py::cache.load"),
                   U('pyvc.frames', 'search_path_frame', 'search_path_frame'),
                   U('pyvc.frames', 'render_write_frame', 'render.write_frame'),
                   U('pyvc.frames', 'cook_drops_stale', 'cook.drops_stale_functions')],
-        "not_decided": ["loader.cache decorator", "package-relative resolution"],
+        "not_decided": ["package-relative resolution ('pkg:path' specs and search-path entries)",
+                        "load: expressions resolving next to the including template (TemplateLoader use in zpt/loader.py)"],
         "assumptions": COMMON_ASSUMPTIONS + ["file system unchanged during one call"],
     },
     "C18": {
